@@ -8,7 +8,7 @@ schedule controller -> every trace replayed through the extracted model (per joi
 import json, os, re
 import vlib, trace
 
-VF = ["JoinCounter/JcModel.v", "JoinCounter/JcProofs.v"]
+VF = ["JoinCounter/JcModel.v", "JoinCounter/JcProofs.v", "JoinCounter/JcInv.v", "JoinCounter/JcTheorems.v"]
 NS = [0, 1, 2, 3, 4, 7, 8]
 PSW = [20, 35, 60, 85]
 POINTS = ["jc.wait.read", "jc.wait.cas", "jc.dec.read", "jc.dec.cas", "blockq.enq", "wakemany.deq", "wakemany.push"]
